@@ -1194,7 +1194,7 @@ func (g *FuncGen) finishPosts() {
 		name := fmt.Sprintf("%s/post#%d", g.fnName, i+1)
 		goal := and(g.postParts[i]...)
 		if sli == nil || !splitPost[i+1] {
-			g.addObl(&Obligation{Name: name, Guard: "true", Goal: goal, Kind: "postcondition", Text: en.Text})
+			g.addObl(&Obligation{Name: name, Guard: "true", Goal: goal, Kind: "postcondition", Text: en.Text, Clause: en.E})
 			continue
 		}
 		henv := g.envAtLoopHead(sli, nil, sli.headState)
@@ -1204,11 +1204,11 @@ func (g *FuncGen) finishPosts() {
 		for k := sli.spec.SplitLo; k <= sli.spec.SplitHi; k++ {
 			cs := and(bh, eq(sv.T, g.litFor(sv, int64(k))))
 			cases = append(cases, cs)
-			g.addObl(&Obligation{Name: fmt.Sprintf("%s[%s=%d]", name, sli.spec.SplitVar, k), Guard: "true", Goal: goal, Extra: []string{cs}, Kind: "postcondition", Text: en.Text})
+			g.addObl(&Obligation{Name: fmt.Sprintf("%s[%s=%d]", name, sli.spec.SplitVar, k), Guard: "true", Goal: goal, Extra: []string{cs}, Kind: "postcondition", Text: en.Text, Clause: en.E})
 		}
-		g.addObl(&Obligation{Name: name + "[loop-not-entered]", Guard: "true", Goal: goal, Extra: []string{not(bh)}, Kind: "postcondition", Text: en.Text})
+		g.addObl(&Obligation{Name: name + "[loop-not-entered]", Guard: "true", Goal: goal, Extra: []string{not(bh)}, Kind: "postcondition", Text: en.Text, Clause: en.E})
 		// remaining values of the counter (exhaustive by construction)
-		g.addObl(&Obligation{Name: name + "[other]", Guard: "true", Goal: goal, Extra: []string{bh, not(or(cases...))}, Kind: "postcondition", Text: en.Text})
+		g.addObl(&Obligation{Name: name + "[other]", Guard: "true", Goal: goal, Extra: []string{bh, not(or(cases...))}, Kind: "postcondition", Text: en.Text, Clause: en.E})
 		_ = exhaustiveDone
 	}
 	if len(g.assignParts) > 0 {
